@@ -13,7 +13,7 @@ from .world import STORAGE_CLASSES, storage_kwargs, tuple_to_name
 
 from ixai.imputer import MarginalImputer, DefaultImputer
 
-SUBSET_TYPES = ["list", "tuple", "set", "frozenset", "keys"]
+SUBSET_TYPES = ["list", "tuple", "set", "frozenset", "keys", "gen", "iter"]
 
 
 def gen_plan(rng, prop):
@@ -158,10 +158,17 @@ def run_imputer_plan(plan):
                 subset = set(sub_names)
             elif st == "frozenset":
                 subset = frozenset(sub_names)
+            elif st == "gen":            # "any iterable": a generator can be walked once only
+                subset = (f_ for f_ in list(sub_names))
+            elif st == "iter":
+                subset = iter(list(sub_names))
             else:
                 holder = dict.fromkeys(sub_names)
                 subset = holder.keys()
-            subset_before = list(subset)
+            one_shot = st in ("gen", "iter")
+            if one_shot:
+                probe("one_shot_iterable_subset")
+            subset_before = list(sub_names) if one_shot else list(subset)
             data = storage.get_data()
             rows_before = list(data[0])
             rows_ids = [id(r) for r in rows_before]
@@ -243,10 +250,11 @@ def run_imputer_plan(plan):
             # nothing modified
             if x != x_before or list(x.keys()) != list(x_before.keys()):
                 return viol("instance-modified", "instance %r -> %r" % (x_before, x), i)
-            if list(subset) != subset_before and set(map(repr, subset)) != set(map(repr, subset_before)):
-                return viol("subset-modified", "subset %r -> %r" % (subset_before, list(subset)), i)
-            if len(list(subset)) != len(subset_before):
-                return viol("subset-modified", "subset %r -> %r" % (subset_before, list(subset)), i)
+            if not one_shot:
+                if list(subset) != subset_before and set(map(repr, subset)) != set(map(repr, subset_before)):
+                    return viol("subset-modified", "subset %r -> %r" % (subset_before, list(subset)), i)
+                if len(list(subset)) != len(subset_before):
+                    return viol("subset-modified", "subset %r -> %r" % (subset_before, list(subset)), i)
             data2 = storage.get_data()
             rows_after = list(data2[0])
             if [id(r) for r in rows_after] != rows_ids or rows_after != rows_copy or list(data2[1]) != ys_before:
@@ -269,7 +277,7 @@ class C06Check(Check):
     rule = ("plans = (feature names of every type, storage kind/capacity, imputer kind, subset shape and container type, "
             "n_samples, store operations interleaved with impute calls, RNG mode incl. first/last-row adversary tape); "
             "non-trivial = at least one impute call judged; distinct = digest of (subsets, model inputs, predictions)")
-    assumptions = ["one-shot iterators are not generated as subsets (whether 'any iterable' includes them is not stated)",
+    assumptions = ["a one-shot iterator given as the subset is consumed by the call; 'never modifies the subset' is judged for re-iterable containers only",
                    "DefaultImputer may evaluate the model fewer than n_samples times (it returns the same prediction n times)"]
 
     def n_runs(self, tier):
